@@ -179,13 +179,31 @@ def run(chk, facts_dir, tier):
     nev = Ev(prog, nb)
     cls5 = Classifier(prog, lambda t: False, lambda t: False)
     n5 = 0
+    # private helpers of the iterator that wrap extract_last_position: `fn position_after(&self, commit)` -> which parameter is the commit
+    wrappers = {}
+    for p_, hb in prog.bodies.items():
+        if not p_.startswith("sierradb::bucket::iter::") or "{closure" in p_ or "next_batch" in p_:
+            continue
+        hev = None
+        for hbi, ht in hb.calls():
+            if (hb.callee_decl(ht) or "").endswith("::extract_last_position") and len(ht["args"]) >= 2:
+                hev = hev or Ev(prog, hb)
+                a = strip(hev.operand(ht["args"][1], (hbi, "T")))
+                if a[0] == "param" and isinstance(a[1], int):
+                    wrappers[p_] = a[1] - 1
     for b5 in [nb] + [c for c in prog.children(nb.path)]:
         ev5 = nev if b5 is nb else Ev(prog, b5)
         for bi, t in b5.calls():
-            if not (b5.callee_decl(t) or "").endswith("::extract_last_position") or len(t["args"]) < 2:
+            if (b5.callee_decl(t) or "").endswith("::extract_last_position") and len(t["args"]) >= 2:
+                ai = 1
+            elif (b5.callee(t) or b5.callee_decl(t) or "") in wrappers:
+                ai = wrappers[b5.callee(t) or b5.callee_decl(t)]
+                if ai >= len(t["args"]):
+                    continue
+            else:
                 continue
             n5 += 1
-            term = resolve_upvars(prog, ev5.operand(t["args"][1], (bi, "T")), b5)
+            term = resolve_upvars(prog, ev5.operand(t["args"][ai], (bi, "T")), b5)
             filt = cls5.deep(term, lambda x: isinstance(x, tuple) and x and x[0] == "call" and "filter_commit" in x[1])
             buffered = any(isinstance(x, tuple) and x and ((x[0] == "field" and x[2] == "batch") or (x[0] == "upvar" and x[1].split(".")[-1] == "batch")) for x in walk(term))
             if filt:
